@@ -13,6 +13,7 @@ def scenarios(tier, rnd):
     for i in range(n):
         ops = [dict(op="join", conn=1, sid=0)]
         members = {1}
+        away = set()
         # clustered centres so that merges are frequent; growth in every direction
         spread = rnd.choice([16, 40, 120, 400])
         cx0, cz0 = rnd.randint(-200, 200), rnd.randint(-200, 200)
@@ -22,10 +23,26 @@ def scenarios(tier, rnd):
                 c = rnd.randint(2, 4)
                 if c in members and len(members) > 1 and rnd.random() < 0.6:
                     ops.append(dict(op="leave", conn=c)); members.discard(c); ops.append(dict(op="open", conn=c))
+                elif c in away:
+                    ops.append(dict(op="leave", conn=c)); away.discard(c); ops.append(dict(op="open", conn=c))
                 elif c not in members:
                     ops.append(dict(op="join", conn=c, sid=1)); members.add(c)
                 continue
-            if x < 0.16 and len(members) > 1 and 1 in members:
+            if x < 0.22 and len(members) > 1:
+                # a member goes to a session of its own on the same connection (its samples there must not land in
+                # session 1), or one that is away comes back (its samples must land in session 1 again)
+                c = rnd.choice(sorted(members - {1}) or [2])
+                if c in members and c != 1:
+                    ops.append(dict(op="join", conn=c, sid=0)); members.discard(c); away.add(c)
+                    for _ in range(rnd.randint(1, 3)):
+                        ops.append(dict(op="quad", conn=c, q=[cx0 + rnd.randint(-spread, spread), cz0 + rnd.randint(-spread, spread), 8, 8, 0]))
+                    continue
+            if x < 0.26 and away:
+                c = rnd.choice(sorted(away))
+                ops.append(dict(op="join", conn=c, sid=1)); away.discard(c); members.add(c)
+                ops.append(dict(op="quad", conn=c, q=[cx0 + rnd.randint(-spread, spread), cz0 + rnd.randint(-spread, spread), 8, 8, 0]))
+                continue
+            if x < 0.30 and len(members) > 1 and 1 in members:
                 ops.append(dict(op="leave", conn=1)); members.discard(1); ops.append(dict(op="open", conn=1))
                 continue
             conn = rnd.choice(sorted(members)) if rnd.random() < 0.93 else rnd.choice([1, 2, 3, 4, 5])
